@@ -274,3 +274,32 @@ pub fn observe(db: &DbX) -> Result<Value, String> {
 pub fn digest(v: &Value) -> String {
     format!("{:016x}", vcore::fnv(serde_json::to_string(v).unwrap().as_bytes()))
 }
+
+/// runs `f` on the concrete database behind the handle (mutable / shared)
+pub fn with_db_mut<R>(db: &mut DbX, f: impl FnOnce(&mut dyn DbDyn) -> R) -> R {
+    match db {
+        DbX::Mem(d) => f(d),
+        DbX::File(d) => f(d),
+        DbX::Map(d) => f(d),
+        DbX::Any(d) => f(d),
+        DbX::Faulty(d) => f(d),
+    }
+}
+pub fn with_db_ref<R>(db: &DbX, f: impl FnOnce(&dyn DbDyn) -> R) -> R {
+    match db {
+        DbX::Mem(d) => f(d),
+        DbX::File(d) => f(d),
+        DbX::Map(d) => f(d),
+        DbX::Any(d) => f(d),
+        DbX::Faulty(d) => f(d),
+    }
+}
+/// the two query kinds the typed driver needs, object safe
+pub trait DbDyn {
+    fn exec_mut(&mut self, q: InsertValuesQuery) -> Result<QueryResult, DbError>;
+    fn exec(&self, q: SelectValuesQuery) -> Result<QueryResult, DbError>;
+}
+impl<S: StorageData> DbDyn for DbImpl<S> {
+    fn exec_mut(&mut self, q: InsertValuesQuery) -> Result<QueryResult, DbError> { DbImpl::exec_mut(self, q) }
+    fn exec(&self, q: SelectValuesQuery) -> Result<QueryResult, DbError> { DbImpl::exec(self, q) }
+}
